@@ -126,7 +126,8 @@ structure Obj where
   value : String
   /-- transient, only on an object under construction: the request set `operation_policy_name` (to the empty text,
   too: the attribute test `if field:` treats it as unset, the INSERT stores it as it is; only `None` takes the column
-  default).  Always `false` on a stored object (`finalize`). -/
+  default).  `finalize` - through which every new object passes before it is inserted - reads it and resets it;
+  nothing else reads it (`C05.server_assigned`). -/
   policyGiven : Bool := false
   deriving Repr, DecidableEq, Inhabited
 
